@@ -111,6 +111,17 @@ def check_spelling(cfg, node_long, spelling, suffix, out, heavy=False):
         if got_sw != exp_sw:
             out.bad("suffix-case-not-verbatim-on-second-lookup", f"{cfg}: after {text!r}, {ns + spelling + sw!r} gives "
                                                                  f"{got_sw} expected {exp_sw}")
+    # a caseless-equal spelling whose length differs (sharp s for "ss"): same node, suffix still verbatim
+    low = spelling.casefold()
+    if suffix and "ss" in low:
+        k = low.rindex("ss")
+        alt = spelling[:k] + "\u00df" + spelling[k + 2:]
+        if alt.casefold() == low:
+            tag_alt = HedTag(ns + alt + suffix, sch)
+            got_alt = (tag_alt.long_tag, tag_alt.short_tag, tag_alt.extension)
+            if got_alt != (exp_long, exp_short, suffix[1:]):
+                out.bad("suffix-not-verbatim-for-caseless-equal-spelling", f"{cfg}: {ns + alt + suffix!r} gives {got_alt} "
+                                                                           f"expected {(exp_long, exp_short, suffix[1:])}")
     # conversion laws: long(short(t)) = long(t); short(long(t)) = short(t); idempotence; same node
     t_long = HedTag(tag.long_tag, sch)
     t_short = HedTag(tag.short_tag, sch)
